@@ -9,6 +9,7 @@ import (
 	"syscall"
 	"time"
 
+	"github.com/alicebob/sqlittle"
 	_ "github.com/alicebob/sqlittle/driver"
 
 	"verif/gen"
@@ -74,3 +75,5 @@ func c05drv(args []string) int {
 	}
 	return 0
 }
+
+func sqlittleOpen(path string) (*sqlittle.DB, error) { return sqlittle.Open(path) }
